@@ -4,7 +4,8 @@
 (* HandleMsg6 / LoadPlugins did with concrete datagrams and configurations *)
 (* against the functions of Dispatch.  Every line is independent.          *)
 (*  d4 {in, parsed, panic, out{sent, n, type, opcode, eq*, pgi, pbc, pci,  *)
-(*      pyi, port, woob, ifindex, l2, frame, fdmac, fdip, fsport, fdport}} *)
+(*      pyi, port, woob, ifindex, l2, frame, fdmac, fdip, fsport, fdport,  *)
+(*      fif, fsmac}}                                                        *)
 (*  d6 {in, parsed, panic, out{sent, n, type, eqxid, eqcid, rapid, layers, *)
 (*      mirror, dstsame, woob, ifindex}}                                   *)
 (*  chain {proto, bs, invoked, saw, reqsame, sent, n, out, panic}          *)
@@ -45,7 +46,8 @@ TraceD4 ==
             /\ exp.to = "yiaddr" => o.pyi
             /\ exp.pinned  => o.woob /\ o.ifindex = exp.ifindex                    \* bound interface, else arrival interface
             /\ ~exp.pinned => ~o.woob                                             \* routable destinations are not pinned
-            /\ (o.l2 /\ o.frame) => o.fdmac /\ o.fdip /\ o.fsport = 67 /\ o.fdport = 68)
+            /\ (o.l2 /\ o.frame) => /\ o.fdmac /\ o.fdip /\ o.fsport = 67 /\ o.fdport = 68
+                                   /\ o.fif = exp.ifindex /\ o.fsmac)                  \* the frame leaves on THAT interface, from its address
 
 In6Of(e) == [parse |-> e.parsed, depth |-> e.in.depth, outer |-> e.in.outer, itype |-> e.in.itype, cid |-> e.in.cid,
              rapid |-> e.in.rapid, src |-> e.in.src, final |-> e.in.final, bound |-> e.in.bound, oobif |-> e.in.oobif]
